@@ -184,6 +184,11 @@ def main(tier):
             want = S.bip341_digest(tx, 0, 0, [(amount, spk)], 0)
             d = sk if R.mul(sk, R.G)[1] % 2 == 0 else R.N - sk
             sig = R.schnorr_sign(want, (d + int(f["tweak"], 16)) % R.N)
+            if i % 3 == 0:
+                # a signature that begins with the annex tag 0x50: as the only witness item it is still the signature
+                for k in range(1, 4000):
+                    sig = R.schnorr_sign(want, (d + int(f["tweak"], 16)) % R.N, aux=k.to_bytes(32, "big"))
+                    if sig[0] == 0x50: break
         r2 = cli.run(tapbin, ["--sig=" + sig.hex()] + args, stdin_tty=True)
         m2 = re.search(rb"Resulting transaction: ([0-9a-f]+)", r2["stdout"] or b"")
         return i, {"reported": m.group(1).decode() if m else None, "want": want.hex(), "signed_tx": m2.group(1).decode() if m2 else None, "fund": fund.raw().hex(), "argv": args,
